@@ -305,22 +305,34 @@ Definition dst_free (s : st) (j : nat) : bool :=
 Definition src_free (s : st) (i : nat) : bool :=
   negb (s_has (s_wsrc s) (f_name (src_at s i))) && negb (f_isget (src_at s i)).
 
+(* The two kinds of state change the passes make.  Every assignment of a
+   strategy flag in makeFuncMap/makeSubMap/makeTypeMatch happens together with
+   the Target assignment, the Adds and the map entry:
+     to_claim   : f1.Target = f2; <g on f2>; <h on f1>; writeDestSet.Adds(f2.Name); readSrcMap[f1.Name] = f2.Name
+     from_claim : f2.Target = f1; <g on f1>; <h on f2>; writeSrcSet.Adds(f1.Name); writeSrcMap[f1.Name] = f2.Name
+   (g sets the strategy flag of the written field, h is the IsPtr write on the
+   field being read, identity outside makeSubMap) *)
+Definition to_claim (i j : nat) (g h : field -> field) (s : st) : st :=
+  claim_dst (f_name (src_at s i)) (f_name (dst_at s j))
+            (on_dst j g (on_src i (fun f => h (set_target (Some j) f)) s)).
+Definition from_claim (i j : nat) (g h : field -> field) (s : st) : st :=
+  claim_src (f_name (src_at s i)) (f_name (dst_at s j))
+            (on_src i g (on_dst j (fun f => h (set_target (Some i) f)) s)).
+
 (* -------------------------------------------- mismatch.go makeFuncMap *)
 Fixpoint func_loop (fns : list mfunc) (i j : nat) (s : st) : st :=
   match fns with
   | [] => s
   | fn :: rest =>
-      let n1 := f_name (src_at s i) in
-      let n2 := f_name (dst_at s j) in
       let t1 := f_ty (src_at s i) in
       let t2 := f_ty (dst_at s j) in
       let s1 :=
-        if dst_free s j && type_equals (mf_param fn) t1 && type_equals (mf_result fn) t2
-        then claim_dst n1 n2 (on_dst j (set_func (mf_name fn)) (on_src i (set_target (Some j)) s))
+        if dst_free s j && (type_equals (mf_param fn) t1 && type_equals (mf_result fn) t2)
+        then to_claim i j (set_func (mf_name fn)) (fun f => f) s
         else s in
       let s2 :=
-        if src_free s1 i && type_equals (mf_param fn) t2 && type_equals (mf_result fn) t1
-        then claim_src n1 n2 (on_src i (set_func (mf_name fn)) (on_dst j (set_target (Some i)) s1))
+        if src_free s1 i && (type_equals (mf_param fn) t2 && type_equals (mf_result fn) t1)
+        then from_claim i j (set_func (mf_name fn)) (fun f => f) s1
         else s1 in
       match f_target (src_at s2 i), f_target (dst_at s2 j) with
       | Some _, Some _ => s2          (* break *)
@@ -337,18 +349,12 @@ Definition sub_map (i j : nat) (typ1 typ2 : ty) (is_slice : bool) (s : st) : st 
   let '(isptr2, t2) := strip_ptr typ2 in
   match t1, t2 with
   | TNamed PSrc n1, TNamed PDst n2 =>
-      let nm1 := f_name (src_at s i) in
-      let nm2 := f_name (dst_at s j) in
       let s1 :=
-        if dst_free s j then
-          claim_dst nm1 nm2
-            (on_dst j (fun f => set_isptr isptr2 (set_submap is_slice t2 f))
-               (on_src i (fun f => set_isptr isptr1 (set_target (Some j) f)) s))
+        if dst_free s j
+        then to_claim i j (fun f => set_isptr isptr2 (set_submap is_slice t2 f)) (set_isptr isptr1) s
         else s in
-      if src_free s1 i then
-        claim_src nm1 nm2
-          (on_src i (fun f => set_isptr isptr1 (set_submap is_slice t1 f))
-             (on_dst j (fun f => set_isptr isptr2 (set_target (Some i) f)) s1))
+      if src_free s1 i
+      then from_claim i j (fun f => set_isptr isptr1 (set_submap is_slice t1 f)) (set_isptr isptr2) s1
       else s1
   | _, _ => s
   end.
@@ -372,26 +378,16 @@ Definition step_mismatch (tm : tagmap) (ic : bool) (fns : list mfunc) (i j : nat
 Definition step_match (e : env) (tm : tagmap) (ic : bool) (i j : nat) (s : st) : st :=
   if negb (can_name_match (src_at s i) (dst_at s j) tm ic) then s
   else
-    let f1 := src_at s i in
-    let f2 := dst_at s j in
-    let '(same, conv) := match_type e (f_ty f1) (f_ty f2) in
-    let '(_, convback) := match_type e (f_ty f2) (f_ty f1) in
+    let t1 := f_ty (src_at s i) in
+    let t2 := f_ty (dst_at s j) in
+    let '(same, conv) := match_type e t1 t2 in
+    let '(_, convback) := match_type e t2 t1 in
     let s1 :=
-      if dst_free s j then
-        let s' := if same || conv
-                  then claim_dst (f_name f1) (f_name f2) (on_src i (set_target (Some j)) s)
-                  else s in
-        if same then on_dst j set_canassign s'
-        else if conv then on_dst j (set_isconv (f_ty f2)) s'
-        else s'
+      if dst_free s j && (same || conv)
+      then to_claim i j (if same then set_canassign else set_isconv t2) (fun f => f) s
       else s in
-    if src_free s1 i then
-      let s' := if same || convback
-                then claim_src (f_name f1) (f_name f2) (on_dst j (set_target (Some i)) s1)
-                else s1 in
-      if same then on_src i set_canassign s'
-      else if convback then on_src i (set_isconv (f_ty f1)) s'
-      else s'
+    if src_free s1 i && (same || convback)
+    then from_claim i j (if same then set_canassign else set_isconv t1) (fun f => f) s1
     else s1.
 
 (* for _, f1 := range exportedFields { for _, f2 := range destExportedFields { … } } *)
@@ -540,6 +536,9 @@ Record plan := {
   pl_manual : bool                        (* a manual toX/fromX runs last *)
 }.
 
+(* the element type of a slice type, the type itself otherwise *)
+Definition unslice (t : ty) : ty := match t with TSlice x => x | _ => t end.
+
 Definition named_name (t : option ty) : string :=
   match t with Some (TNamed _ n) => n | _ => "" end.
 
@@ -552,10 +551,8 @@ Definition strategies (to_dir : bool) (w r : field) : list strategy :=
   ++ (if negb (String.eqb (f_func w) "") then [SFunc (f_func w)] else [])
   ++ (let sp := if to_dir then f_isptr r else f_isptr w in
       let dp := if to_dir then f_isptr w else f_isptr r in
-      let sn := if to_dir then type_name (snd (strip_ptr (match f_ty r with TSlice x => x | x => x end)))
-                else named_name (f_type w) in
-      let dn := if to_dir then named_name (f_type w)
-                else type_name (snd (strip_ptr (match f_ty r with TSlice x => x | x => x end))) in
+      let sn := if to_dir then type_name (snd (strip_ptr (unslice (f_ty r)))) else named_name (f_type w) in
+      let dn := if to_dir then named_name (f_type w) else type_name (snd (strip_ptr (unslice (f_ty r)))) in
       (if f_canmap w then [SMap sp dp sn dn] else [])
       ++ (if f_caneach w then [SEach sp dp sn dn] else [])).
 
@@ -596,7 +593,18 @@ Definition ctor_args (to_dir : bool) (params : list field) (readers : list field
       (* FromX: zero if Zero, and additionally one argument per flag *)
       (if f_zero p then [(f_path p, CZero (f_ty p))] else []) ++ from_target) params.
 
-Definition analyse (sigma : oracle) (jb : job) : option analysis :=
+(* everything up to (and including) makeCtorMatch *)
+Record prep := {
+  pr_src : parsed;
+  pr_dst : parsed;
+  pr_s0 : st;                 (* fields after makeCompatible, write sets after parseManual and makeCtorMatch *)
+  pr_dctor : list field;
+  pr_sctor : list field;
+  pr_use_d : bool;
+  pr_use_s : bool
+}.
+
+Definition prepare (jb : job) : option prep :=
   let e := j_env jb in
   match parse_fields e (j_fuel jb) PSrc (j_src jb) true, parse_fields e (j_fuel jb) PDst (j_dst jb) false with
   | Some ps, Some pd =>
@@ -616,9 +624,47 @@ Definition analyse (sigma : oracle) (jb : job) : option analysis :=
         make_ctor_match e tm ic fns srcf (map ctor_field (j_dst_ctor jb)) wdst0 in
       let '(sctor, wsrc1, use_s) :=
         make_ctor_match e [] ic fns dstf (map ctor_field (j_src_ctor jb)) wsrc0 in
-      let s0 := mkSt srcf dstf wsrc1 wdst1 [] [] in
-      let s1 := double_loop (step_mismatch tm ic fns) s0 in
-      let s2 := double_loop (step_match e tm ic) s1 in
+      Some {| pr_src := ps; pr_dst := pd; pr_s0 := mkSt srcf dstf wsrc1 wdst1 [] [];
+              pr_dctor := dctor; pr_sctor := sctor; pr_use_d := use_d; pr_use_s := use_s |}
+  | _, _ => None
+  end.
+
+(* makeTypeMismatch, then makeTypeMatch *)
+Definition run_passes (e : env) (tm : tagmap) (ic : bool) (fns : list mfunc) (s0 : st) : st :=
+  double_loop (step_match e tm ic) (double_loop (step_mismatch tm ic fns) s0).
+
+(* the statement list of ToX: one block per source field with a Target *)
+Definition to_stmts (spaths : list (string * list path)) (src_need : string -> bool) (s2 : st) : list stmt :=
+  flat_map (fun sf =>
+    match f_target sf with
+    | Some j =>
+        let df := dst_at s2 j in
+        map (fun h => {| st_dst := ref_of df; st_src := ref_of sf; st_how := h;
+                         st_guard := guard_of (src_need (f_name sf)) spaths (f_name sf) |})
+            (strategies true df sf)
+    | None => []
+    end) (s_src s2).
+
+(* the statement list of FromX: one block per destination field with a Target *)
+Definition from_stmts (dpaths : list (string * list path)) (dst_need : string -> bool) (s2 : st) : list stmt :=
+  flat_map (fun df =>
+    match f_target df with
+    | Some i =>
+        let sf := src_at s2 i in
+        map (fun h => {| st_dst := ref_of sf; st_src := ref_of df; st_how := h;
+                         st_guard := guard_of (dst_need (f_name sf)) dpaths (f_name df) |})
+            (strategies false sf df)
+    | None => []
+    end) (s_dst s2).
+
+Definition analyse (sigma : oracle) (jb : job) : option analysis :=
+  match prepare jb with
+  | None => None
+  | Some pr =>
+      let e := j_env jb in
+      let ps := pr_src pr in
+      let pd := pr_dst pr in
+      let s2 := run_passes e (p_tags ps) (j_ic jb) (j_funcs jb) (pr_s0 pr) in
       (* makeReadWriteCheck *)
       let spaths := paths_map (p_ptr ps) (s_src s2) in
       let dpaths := paths_map (p_ptr pd) (s_dst s2) in
@@ -636,38 +682,19 @@ Definition analyse (sigma : oracle) (jb : job) : option analysis :=
                          (fun f => existsb (fun kv => String.eqb (f_name f) (snd kv)) (s_rmap s2)) in
       let with_ty (pm : ptrmap) (l : list path) :=
         map (fun p => (p, match pm_get pm p with Some t => t | None => TBasic BBool end)) l in
-      let to_stmts :=
-        flat_map (fun sf =>
-          match f_target sf with
-          | Some j =>
-              let df := dst_at s2 j in
-              map (fun h => {| st_dst := ref_of df; st_src := ref_of sf; st_how := h;
-                               st_guard := guard_of (src_need (f_name sf)) spaths (f_name sf) |})
-                  (strategies true df sf)
-          | None => []
-          end) (s_src s2) in
-      let from_stmts :=
-        flat_map (fun df =>
-          match f_target df with
-          | Some i =>
-              let sf := src_at s2 i in
-              map (fun h => {| st_dst := ref_of sf; st_src := ref_of df; st_how := h;
-                               st_guard := guard_of (dst_need (f_name sf)) dpaths (f_name df) |})
-                  (strategies false sf df)
-          | None => []
-          end) (s_dst s2) in
-      let pto := {| pl_ctor := if use_d then Some (ctor_args true dctor (s_src s2)) else None;
+      let use_d := pr_use_d pr in
+      let use_s := pr_use_s pr in
+      let pto := {| pl_ctor := if use_d then Some (ctor_args true (pr_dctor pr) (s_src s2)) else None;
                     pl_alloc := if use_d then [] else with_ty (p_ptr pd) dst_alloc;
-                    pl_stmts := to_stmts;
+                    pl_stmts := to_stmts spaths src_need s2;
                     pl_manual := match j_manual_to jb with Some _ => true | None => false end |} in
-      let pfrom := {| pl_ctor := if use_s then Some (ctor_args false sctor (s_dst s2)) else None;
+      let pfrom := {| pl_ctor := if use_s then Some (ctor_args false (pr_sctor pr) (s_dst s2)) else None;
                       pl_alloc := if use_s then [] else with_ty (p_ptr ps) src_alloc;
-                      pl_stmts := from_stmts;
+                      pl_stmts := from_stmts dpaths dst_need s2;
                       pl_manual := match j_manual_from jb with Some _ => true | None => false end |} in
-      Some {| a_state := s2; a_src_ctor := sctor; a_dst_ctor := dctor;
+      Some {| a_state := s2; a_src_ctor := pr_sctor pr; a_dst_ctor := pr_dctor pr;
               a_use_src_ctor := use_s; a_use_dst_ctor := use_d;
               a_src_parsed := ps; a_dst_parsed := pd; a_to := pto; a_from := pfrom |}
-  | _, _ => None
   end.
 
 (* -way: which methods are generated *)
